@@ -2,8 +2,11 @@
 
 package main
 
-import "math/rand/v2"
+import (
+	"math/rand/v2"
 
-func graftWork(rc *recorder, rng *rand.Rand, scale int) {
-	rc.r.HookMissing("strobe graft (Keccak permutation)")
-}
+	"github.com/oasisprotocol/curve25519-voi/zzverif/workload"
+)
+
+// without the strobe graft the Keccak permutation is only reached through Merlin
+var graftWork func(workload.Sink, *rand.Rand, int)
